@@ -372,6 +372,79 @@ def key_of(idx):
     return idx
 
 
+# the FORM of an indexer (a random dimension of the generator).  `idx` of a descriptor holds the base selection: an int,
+# a slice `{a, b, s}` (any step, negative ones included) or a list of non-negative positions; `form` says how it is
+# written down.
+FORM_HOWS = ("isel_kw", "isel_indexers", "isel_dict", "getitem", "getitem_dict")   # entries that take positions
+FORMS_LIST = ["list", "np64", "np32", "neg", "neg_np"]          # order kept, duplicates allowed
+FORMS_MASK = ["mask_np", "mask_list", "mask_da"]               # need sorted, duplicate-free positions
+FORMS = FORMS_LIST + FORMS_MASK + ["cmp", "empty", "empty_slice"]
+
+
+def make_key(desc, d, n=None):
+    """the indexer object the descriptor stands for, built against the array `d` it will index"""
+    import xarray as xr_
+
+    idx, form, dim = desc["idx"], desc.get("form"), desc.get("dim")
+    if form == "cmp":
+        return d > desc["c"]                      # the comparison itself: a boolean DataArray along `dim` (1-D arrays)
+    if form == "empty":
+        return np.array([], dtype=np.int64)
+    if form == "empty_slice":
+        return slice(1, 1)
+    if isinstance(idx, dict):
+        return slice(idx["a"], idx["b"], idx["s"])
+    if form in (None, "list") or not isinstance(idx, list):
+        return idx
+    n = int(d.sizes[dim]) if n is None else n
+    if form == "np64":
+        return np.array(idx, dtype=np.int64)
+    if form == "np32":
+        return np.array(idx, dtype=np.int32)
+    if form == "neg":
+        return [int(i) - n for i in idx]
+    if form == "neg_np":
+        return np.array([int(i) - n for i in idx], dtype=np.int64)
+    mask = np.zeros(n, dtype=bool)
+    mask[idx] = True
+    if form == "mask_np":
+        return mask
+    if form == "mask_list":
+        return mask.tolist()
+    if form == "mask_da":
+        return xr_.DataArray(mask, dims=[dim])
+    raise KeyError(form)
+
+
+def positions_of(key, n):
+    """NumPy's own normalisation of an indexer along a dimension of length n (None for a scalar: the dim disappears)"""
+    if isinstance(key, slice):
+        return np.arange(n)[key].tolist()
+    k = np.asarray(getattr(key, "values", key))
+    if k.ndim == 0:
+        return None
+    if k.size == 0:
+        return []
+    return np.arange(n)[k].tolist()
+
+
+def lean_normidx(d, key, n):
+    """the Lean model's `normIdx n idx` for the same indexer (None: the model says NumPy raises)"""
+    if isinstance(key, slice):
+        a, b, st = key.start, key.stop, (1 if key.step is None else key.step)
+        q = f"2 {0 if a is None else 1} {0 if a is None else int(a)} {0 if b is None else 1} {0 if b is None else int(b)} {int(st)}"
+    else:
+        k = np.asarray(getattr(key, "values", key))
+        if k.dtype == bool:
+            q = "1 " + common.enc_ints([1 if x else 0 for x in k.tolist()])
+        else:
+            q = "0 " + common.enc_ints([int(x) for x in k.reshape(-1).tolist()])
+    out = d.ask("C10.normidx", n, q)
+    if out == "none":
+        return None
+    return common.Tok(out.split()[1:]).ints()
+
+
 def apply_x(desc, d, xr):
     m = desc["m"]
     if m == "arith":
@@ -409,7 +482,7 @@ def apply_x(desc, d, xr):
     if m == "cumulative":
         return getattr(d.cumulative(desc["dim"]), desc["f"])()
     if m == "index":
-        how, dim, k = desc["how"], desc["dim"], key_of(desc["idx"])
+        how, dim, k = desc["how"], desc["dim"], (make_key(desc, d) if desc["how"] in FORM_HOWS else key_of(desc["idx"]))
         if how == "isel_kw":
             return d.isel(**{dim: k})
         if how == "isel_indexers":
@@ -482,9 +555,15 @@ def resolve_idx(desc, u):
     """the index (list) of a `ux_isel` descriptor; with `wrap` the entries are taken modulo the CURRENT grid's element
     count (used by the chained-selection stream, where the size of the intermediate sub-grid is not known in advance)"""
     idx = desc["idx"]
+    n = int(getattr(u.uxgrid, desc["dim"]))
     if desc.get("wrap"):
-        n = int(getattr(u.uxgrid, desc["dim"]))
         idx = [int(i) % n for i in idx] if isinstance(idx, list) else int(idx) % n
+    if desc.get("form") == "cmp":
+        return u > desc["c"]
+    if desc.get("form"):
+        return make_key(dict(desc, idx=idx), u, n=n)      # the FORM the selection is written in (mask, negative, slice …)
+    if isinstance(idx, dict):
+        return key_of(idx)
     return idx
 
 
@@ -511,7 +590,7 @@ def apply_ux(desc, u, world):
     m = desc["m"]
     if m == "ux_isel":
         idx = resolve_idx(desc, u)
-        return u.isel(**{desc["dim"]: (np.array(idx) if desc.get("as_array") else idx)})
+        return u.isel(**{desc["dim"]: (np.array(idx) if desc.get("as_array") and isinstance(idx, list) else idx)})
     if m == "ux_subset":
         return subset_call(desc, u.uxgrid, u)
     if m == "integrate":
@@ -774,6 +853,30 @@ def run_program(env, inp, out, tag="gen", chooser=None, depth=0):
             except Exception as e:
                 out["skipped"].append((name + "[grid-level selection undefined]", type(e).__name__))
                 continue
+        # ---- the selection an indexing step makes, as positions along its dimension (NumPy's normalisation of the
+        #      indexer in whatever FORM it is written) — compared with the Lean model's `normIdx`
+        sel_pos = None
+        if (m == "index" and desc["how"] in FORM_HOWS and desc["dim"] in t.dims) or (m == "ux_isel" and cur_grid is not None):
+            try:
+                if m == "index":
+                    n_sel = int(t.sizes[desc["dim"]])
+                    key_sel = make_key(desc, t)
+                else:
+                    n_sel = int(getattr(cur_grid, desc["dim"]))
+                    key_sel = (t > desc["c"]) if desc.get("form") == "cmp" else resolve_idx(desc, u)
+                sel_pos = positions_of(key_sel, n_sel)
+                if sel_pos is None and m == "ux_isel":
+                    kk = int(np.asarray(key_sel))                      # the keyword form keeps the dimension for a scalar
+                    sel_pos = [kk % n_sel] if -n_sel <= kk < n_sel else None
+                    key_sel = [kk]
+                if sel_pos is not None:
+                    lp = lean_normidx(d, key_sel, n_sel)
+                    ctx.hit("indexer-form:" + (desc.get("form") or ("slice" if isinstance(key_sel, slice) else "list")))
+                    if lp != sel_pos:
+                        out["mismatches"].append(("C10/normIdx-vs-numpy", dict(n=n_sel, form=desc.get("form"), idx=desc.get("idx")),
+                                                  sel_pos, lp))
+            except Exception as e:
+                sel_pos = None
         # ---- the implementation
         err = None
         try:
@@ -782,6 +885,15 @@ def run_program(env, inp, out, tag="gen", chooser=None, depth=0):
             err, r = e, None
         here = dict(grids=inp["grids"], start=inp["start"], program=done + [desc], warm=bool(inp.get("warm")))
         if err is not None:
+            if sel_pos == [] and (is_ux or desc.get("dim") in GRID_DIMS):
+                out["failures"].append(dict(
+                    signature=(f"C10/op={name}/empty-selection/raises" if is_ux else
+                               f"C10/op={name}/dim={desc['dim']}/empty-selection/raises"),
+                    what=(f"an EMPTY selection along {desc['dim']} ({desc.get('how') or 'isel keyword'}, form {desc.get('form')}) raises "
+                          f"{type(err).__name__}: {str(err)[:120]} — plain xarray returns an empty array; a Grid without faces cannot be "
+                          "constructed"),
+                    input=here, impl=dict(error=f"{type(err).__name__}: {err}"[:300]), model=None, clauses=["values_as_xarray"]))
+                continue
             if is_ux:
                 sub = state["grid"] >= 0 and world.derived[state["grid"]]
                 gcoord = any(set(v.dims) & set(GRID_DIMS) for v in u.coords.values())
@@ -901,9 +1013,8 @@ def run_program(env, inp, out, tag="gen", chooser=None, depth=0):
             refs = []
             if m == "ux_isel" and desc["dim"] == "n_face" and gd0 == "n_face":
                 # independent oracle 1: plain xarray's isel BY NAME with the requested faces
-                idx0 = resolve_idx(desc, u)
-                idx0 = idx0 if isinstance(idx0, list) else [idx0]
-                refs.append(("plain-xarray-isel-by-name-at-requested-faces", t.isel({gd0: idx0})))
+                if sel_pos is not None:
+                    refs.append(("plain-xarray-isel-by-name-at-requested-faces", t.isel({gd0: sel_pos})))
             if post["grid"] >= 0 and cur_grid is not None:
                 # independent oracle 2, for every centring, on base grids and on sub-grids alike: identify each element of
                 # the attached sub-grid in the CURRENT grid by its geometry and index the plain twin by name with that list
@@ -954,6 +1065,21 @@ def run_program(env, inp, out, tag="gen", chooser=None, depth=0):
                 if not arrays_equal(np.asarray(r.values), np.asarray(ref.values)):
                     bad_values = "values (data of the elements that have a counterpart in the dual)"
         clauses = verdict[5:].split(",") if verdict.startswith("fail") else []
+        # ---- the sub-grid of a selection IS the selected elements: for faces exactly, in the order selected; for nodes /
+        #      edges (inclusive selection) it contains every selected element.  Elements are identified by geometry.
+        grid_sel = None
+        if sel_pos is not None and cur_grid is not None and post["grid"] >= 0 and (m == "ux_isel" or grid_aware) \
+                and world.grids[post["grid"]] is not cur_grid:
+            sdim = desc["dim"]
+            imap = index_map(cur_grid, world.grids[post["grid"]], sdim)
+            if imap is not None:
+                if sdim == "n_face" and imap != sel_pos:
+                    grid_sel = f"the sub-grid's faces are source faces {imap[:12]} but the selection is {sel_pos[:12]}"
+                elif sdim != "n_face" and not set(sel_pos) <= set(imap):
+                    grid_sel = f"selected {sdim} {sorted(set(sel_pos) - set(imap))[:12]} are missing from the sub-grid"
+                ctx.hit("selection-grid-identified:" + sdim)
+            if grid_sel:
+                clauses.append("grid_is_the_selection")
         if m == "copy" and desc["how"] in DEEP and post["grid"] >= 0 and cur_grid is not None:
             # "an equal … grid": the library's own Grid.__eq__ on (copy's grid, original grid)
             try:
@@ -1030,12 +1156,15 @@ def run_program(env, inp, out, tag="gen", chooser=None, depth=0):
             elif c0 == "shape_as_xarray":
                 sig = f"C10/op={name}/shape-differs-from-xarray"
                 what = f"{name}: result dims {post['dims']} but plain xarray gives {post_dims}"
+            elif c0 == "grid_is_the_selection":
+                sig = f"C10/op={name}/dim={desc['dim']}/form={desc.get('form') or 'list'}/grid-is-not-the-selection"
+                what = f"{name} ({desc.get('how') or 'isel keyword'}, indexer form {desc.get('form') or 'list'}): {grid_sel}"
             elif c0 == "grid_isel_by_name":
                 sig = f"C10/op={name}/not-by-name/dims-order-or-length"
                 what = (f"{name} on a grid dimension: result dims {post['dims']} are not the input dims {pre_dims} with the grid "
                         "dimension's length replaced by the sub-grid's count")
             elif is_ux:
-                sig = f"C10/op={name}/values-differ-from-isel-by-name" + (
+                sig = f"C10/op={name}" + (f"/form={desc['form']}" if desc.get("form") else "") + "/values-differ-from-isel-by-name" + (
                     "/on-sub-grid" if state["grid"] >= 0 and world.derived[state["grid"]] else "")
                 what = (f"{name} on dims {pre_dims}: {bad_values} differ from indexing the grid dimension BY NAME "
                         "(plain xarray isel on the same data / the same selection on the transposed array)")
@@ -1143,6 +1272,45 @@ def gen_index(rng, n):
     return sorted(rng.sample(range(n), k)) if rng.random() < 0.7 else [rng.randrange(n) for _ in range(k)]
 
 
+def gen_form(rng, n, t=None, dim=None, allow_empty=True):
+    """(idx, extra) — a selection along a dimension of length n together with the FORM it is written in: integer list (Python /
+    int64 / int32, negative entries, duplicates, a full-length permutation), slice (any step, negative step, negative bounds),
+    boolean mask (NumPy / list of bools / boolean DataArray on the same dim / the comparison `array > c` itself), empty"""
+    r = rng.random()
+    if r < 0.22:        # slices
+        kind = rng.random()
+        if kind < 0.3:
+            return dict(a=None, b=None, s=rng.choice([-1, -2, 2, 3])), {}
+        if kind < 0.6:
+            a = rng.randrange(n)
+            return dict(a=a, b=rng.randint(a + 1, n), s=rng.choice([None, 1, 2])), {}
+        if kind < 0.8:
+            return dict(a=-rng.randint(1, n), b=None, s=None), {}
+        b = rng.randrange(n)
+        return dict(a=rng.randint(b, n - 1), b=(b - 1 if b > 0 else None), s=-rng.choice([1, 2])), {}
+    if r < 0.50:        # masks: sorted, duplicate-free positions
+        k = rng.randint(1, n)
+        idx = sorted(rng.sample(range(n), k))
+        if rng.random() < 0.3 and n >= 2:
+            idx = list(range(n // 2, n))         # the shape of the C10f witness: a run of False then a run of True
+        return idx, dict(form=rng.choice(FORMS_MASK))
+    if r < 0.58 and t is not None and t.ndim == 1 and t.dtype.kind in "fiu":
+        vals = np.asarray(t.values, dtype=float)
+        vals = vals[~np.isnan(vals)]
+        if vals.size and vals.min() < vals.max():
+            c = float(np.sort(np.unique(vals))[max(0, len(np.unique(vals)) // 2 - 1)])
+            return [0], dict(form="cmp", c=c)
+    if r < 0.62 and allow_empty:
+        return [0], dict(form=rng.choice(["empty", "empty_slice"]))
+    if r < 0.72:        # a full-length permutation
+        perm = list(range(n))
+        rng.shuffle(perm)
+        return perm, dict(form=rng.choice(FORMS_LIST))
+    k = rng.randint(1, min(n, 6))
+    idx = [rng.randrange(n) for _ in range(k)] if rng.random() < 0.4 else rng.sample(range(n), k)   # duplicates / unsorted
+    return idx, dict(form=rng.choice(FORMS_LIST))
+
+
 def candidates(rng, t, state, world_counts, closed, derived, heap_n):
     """operation descriptors applicable to the twin `t` (shape-wise); weights by repetition"""
     dims = [str(x) for x in t.dims]
@@ -1178,6 +1346,10 @@ def candidates(rng, t, state, world_counts, closed, derived, heap_n):
         hows = ["isel_kw", "isel_indexers", "isel_dict", "getitem", "getitem_dict", "head", "tail", "thin"]
         for _ in range(3):
             how = rng.choice(hows)
+            if how in FORM_HOWS and rng.random() < 0.4:
+                idx, ex = gen_form(rng, n, None, x)
+                out.append(dict(m="index", how=how, dim=x, idx=idx, **ex))
+                continue
             idx = gen_index(rng, n) if how not in ("head", "tail", "thin") else rng.randint(1, n)
             out.append(dict(m="index", how=how, dim=x, idx=idx))
         if x in t.indexes:
@@ -1190,12 +1362,17 @@ def candidates(rng, t, state, world_counts, closed, derived, heap_n):
     for x in gdims:
         n = sizes[x]
         hows = ["isel_indexers", "isel_dict", "getitem", "getitem_dict", "head", "tail", "thin"]
-        for _ in range(2):
+        for _ in range(4):
             how = rng.choice(hows)
-            idx = gen_index(rng, n) if how not in ("head", "tail", "thin") else rng.randint(1, n)
-            if how in ("getitem", "getitem_dict") and rng.random() < 0.2:
-                idx = dict(a=None, b=None, s=-1)  # a reversal: same length
-            out.append(dict(m="index", how=how, dim=x, idx=idx))
+            if how in ("head", "tail", "thin"):
+                out.append(dict(m="index", how=how, dim=x, idx=rng.randint(1, n)))
+            elif rng.random() < 0.15:
+                out.append(dict(m="index", how=how, dim=x, idx=rng.randrange(n)))           # a scalar: the dim disappears
+            else:
+                idx, ex = gen_form(rng, n, t, x)
+                if ex.get("form") == "cmp" and how not in ("getitem", "isel_indexers", "isel_dict"):
+                    ex = {}
+                out.append(dict(m="index", how=how, dim=x, idx=idx, **ex))
         if x in t.indexes:
             labs = [v.item() for v in t[x].values]
             out.append(dict(m="index", how="sel", dim=x, idx=sorted(rng.sample(labs, rng.randint(1, len(labs))))))
@@ -1238,7 +1415,11 @@ def candidates(rng, t, state, world_counts, closed, derived, heap_n):
                     ZERO_COUNT_GRIDS.append(tuple(cnt))   # a grid without elements of some kind: nothing to select
                     continue
                 r0 = rng.random()
-                if r0 < 0.15:
+                if r0 < 0.45:
+                    idx_, ex_ = gen_form(rng, n, t if dim == gdims[0] else None, dim)
+                    out.append(dict(m="ux_isel", dim=dim, idx=idx_, **ex_))
+                    continue
+                if r0 < 0.55:
                     idx, arr = rng.randrange(n), False
                 elif r0 < 0.5 and dims[-1] != gdims[0]:
                     lim = max(1, min(n, last_len))
@@ -1649,6 +1830,45 @@ def selection_chains(env, rng, base, wc):
     return progs
 
 
+def indexer_forms(env, rng, base, wc):
+    """every FORM of indexer of a grid dimension × every entry that takes positions (`[]`, `[{…}]`, isel(indexers=…),
+    isel({…}), isel(n_*=…) — which is Grid.isel), on 1-D and 2-D arrays of every centring"""
+    progs = []
+    for centre in ("n_face", "n_node", "n_edge"):
+        for gid in (0, 1):
+            n = wc[gid][GRID_DIMS[centre]]
+            for lead in ([], [["t", 2]]):
+                sp = gen_start(rng, wc, gid, centre=centre, dtype=rng.choice(["float64", "int64"]), gcoord=False, lead=lead)
+                sp["coords"] = {}
+                data = [v for v in sp["data"][:n] if v is not None]
+                half = list(range(n // 2, n))
+                some = sorted(rng.sample(range(n), max(1, n // 3)))
+                perm = list(range(n))
+                rng.shuffle(perm)
+                sels = [(some, dict(form=f)) for f in FORMS_LIST + FORMS_MASK]
+                sels += [(half, dict(form=f)) for f in FORMS_MASK]
+                sels += [([n - 1, 0, 0, 1], dict(form="list")), ([n - 1, 0, 0, 1], dict(form="np32")), (perm, dict(form="np64")),
+                         (dict(a=None, b=None, s=-1), {}), (dict(a=1, b=n - 1, s=2), {}), (dict(a=-3, b=None, s=None), {}),
+                         (dict(a=n - 1, b=0, s=-2), {}), ([0], dict(form="empty")), ([0], dict(form="empty_slice")),
+                         (rng.randrange(n), {})]
+                if not lead and data and min(data) < max(data):
+                    sels.append(([0], dict(form="cmp", c=float(sorted(set(data))[len(set(data)) // 2 - 1]))))
+                for idx, ex in sels:
+                    for how in ("getitem", "getitem_dict", "isel_indexers", "isel_dict"):
+                        progs.append(dict(base, start=sp, program=[dict(m="index", how=how, dim=centre, idx=idx, **ex)]))
+                    for dim in GRID_DIMS:
+                        nd = wc[gid][GRID_DIMS[dim]]
+                        if dim != centre and (ex.get("form") in ("cmp",) or (isinstance(idx, list) and idx and max(idx) >= nd)
+                                              or (isinstance(idx, int) and idx >= nd)):
+                            continue
+                        if dim != centre and ex.get("form") in FORMS_MASK:
+                            idx2 = [i for i in range(wc[gid][GRID_DIMS[dim]]) if i % 3 == 1]
+                            progs.append(dict(base, start=sp, program=[dict(m="ux_isel", dim=dim, idx=idx2, **ex)]))
+                            continue
+                        progs.append(dict(base, start=sp, program=[dict(m="ux_isel", dim=dim, idx=idx, **ex)]))
+    return progs
+
+
 def copy_chains(env, rng, base, wc):
     """every way of copying, after 0, 1 and 2 other operations (incl. uxarray's own), for every centring"""
     progs = []
@@ -1740,6 +1960,8 @@ def run(ctx):
                 run_program(env, inp, out, tag="layout")
             for inp in copy_chains(env, rng, base, wc):
                 run_program(env, inp, out, tag="copies")
+            for inp in indexer_forms(env, rng, base, wc):
+                run_program(env, inp, out, tag="forms")
             for inp in selection_chains(env, rng, base, wc):
                 run_program(env, inp, out, tag="chains")
                 if rng.random() < 0.25:
